@@ -168,8 +168,12 @@ def r2(F, R):
     n = 0
     for bi, blk in enumerate(b.blocks):
         for st in blk["stmts"]:
-            if st["k"] == "assign" and st["rv"]["k"] == "agg" and st["rv"]["ak"] == "tuple" and len(st["rv"]["ops"]) == 2:
+            if st["k"] == "assign" and st["rv"]["k"] == "agg" and st["rv"]["ak"] in ("tuple", "adt") and len(st["rv"]["ops"]) == 2:
+                # the (state, info) pair the kernel returns: a tuple, or a private struct with these two members in either order
                 tys = [b.local_ty(o["pl"]["l"]) if o["k"] in ("copy", "move") else "" for o in st["rv"]["ops"]]
+                if tys[1].startswith("dynamics::state::State") and "MclmcInfo" in tys[0]:
+                    st = dict(st, rv=dict(st["rv"], ops=list(reversed(st["rv"]["ops"]))))
+                    tys = list(reversed(tys))
                 if not (tys[0].startswith("dynamics::state::State") and "MclmcInfo" in tys[1]):
                     continue
                 n += 1
